@@ -66,43 +66,16 @@ def lane_jobs(quick):
 
 def jobs(tier):
     quick = tier == "quick"
-    return b2b_box_jobs(quick) + b2b_random_jobs(quick) + lane_jobs(quick)
+    # longest jobs first (the pool hands them out in order)
+    return b2b_box_jobs(quick) + conv_jobs(quick) + b2b_random_jobs(quick) + lane_jobs(quick)
 
 
 CONVS = (("up", 32, 64), ("up", 64, 128), ("up", 32, 128), ("up", 32, 256),
          ("down", 64, 32), ("down", 128, 64), ("down", 128, 32), ("down", 256, 32))
 
 
-def conv_arith(ctx, stop_at_first=True):
-    """Mode C: the converters' AW/AR arithmetic on the real netlist vs `upConv`/`downConv`, plus the byte-set
-    oracle (model independent).  Returns (disagreements, oracle_failure|None)."""
-    import random
-    quick = ctx.tier == "quick"
-    dis = []
-    oracle_fail = None
-    for (kind, a, b) in CONVS:
-        rng = random.Random(ctx.seed * 131 + a * 7 + b)
-        ca = ConvArith(kind, a, b)
-        reqs = list(c10lib.conv_requests(rng, 32, ca.sf, ca.st, quick))
-        ans = ctx.lean.call_batch([ca.lean_line(r) for r in reqs])
-        nsup = 0
-        for k, (r, line) in enumerate(zip(reqs, ans)):
-            ch = "aw" if k % 2 == 0 else "ar"
-            got = ca.impl(r, ch)
-            want = tuple(int(w) for w in line.split())
-            if ca.supported(r):
-                nsup += 1
-                m = ca.oracle(r, got)
-                if m and oracle_fail is None:
-                    oracle_fail = {"instance": ca.name, "channel": ch, "request": list(r), "forwarded": list(got),
-                                   "monitor": m}
-            if got != want and len(dis) < 3:
-                dis.append({"instance": ca.name, "kind": "conv-arith", "channel": ch, "request": list(r),
-                            "impl": list(got), "model": list(want)})
-        ctx.cov.add_cases(ca.name, len(reqs), nsup, exhaustive=False)
-        ctx.cov.count("conv-arith requests", len(reqs))
-        ctx.cov.count("conv-arith in byte-preserving region", nsup)
-    return dis, oracle_fail
+def conv_jobs(quick):
+    return [Job("C", lambda kind=kind, a=a, b=b: ConvArith(kind, a, b)) for (kind, a, b) in CONVS]
 
 
 def spec_crosscheck(ctx):
@@ -141,12 +114,7 @@ def spec_crosscheck(ctx):
 
 def correspond(ctx):
     ctx.jobs = jobs(ctx.tier)
-    dis = run_jobs(ctx, ctx.jobs)
-    d2, ofail = conv_arith(ctx)
-    ctx.conv_oracle_fail = ofail
-    dis = list(dis) + d2 + spec_crosscheck(ctx)
-    if ofail:
-        dis.append({"instance": ofail["instance"], "kind": "monitor:" + ofail["monitor"], "request": ofail["request"]})
+    dis = list(run_jobs(ctx, ctx.jobs)) + spec_crosscheck(ctx)
     ctx.cov.notes.append("mode A on AXIBurst2Beat uses a state-dependent alphabet: all requests of the box are offered "
                          "in the clean idle state, only beat.ready varies while the master holds a request; idle states "
                          "with a stale offset (reachable only after an illegal burst) get a reduced request alphabet")
@@ -155,16 +123,27 @@ def correspond(ctx):
 
 def search(ctx, disagreements, proof_info):
     """Failing-input search with the model-independent oracles."""
-    if getattr(ctx, "conv_oracle_fail", None):
-        return ctx.conv_oracle_fail
     deadline = time.time() + (60 if ctx.tier == "quick" else 600)
-    # 1. converters: byte-set oracle over the full supported region
-    try:
-        _, ofail = conv_arith(ctx)
-        if ofail:
-            return ofail
-    except Exception:
-        pass
+    # 1. converters: the byte-set oracle fired during the arithmetic differential
+    for d in disagreements:
+        if isinstance(d, dict) and d.get("kind", "").startswith("monitor:") and "request" in d:
+            return d
+    # 1b. converters whose arithmetic disagrees with the model: sweep the byte-preserving region with the oracle
+    import random
+    for d in disagreements:
+        if isinstance(d, dict) and d.get("kind") == "conv-arith":
+            for (kind, a, b) in CONVS:
+                ca = ConvArith(kind, a, b)
+                if ca.name != d["instance"]:
+                    continue
+                rng = random.Random(ctx.seed + 17)
+                for r in c10lib.conv_supported_requests(rng, ca, 4000):
+                    for ch in ("aw", "ar"):
+                        got = ca.impl(r, ch)
+                        m = ca.oracle(r, got)
+                        if m:
+                            return {"instance": ca.name, "channel": ch, "request": list(r), "forwarded": list(got),
+                                    "monitor": m}
     # 2. a monitor that fired during co-simulation / disagreement traces / random runs (machine instances)
     machine_dis = [d for d in disagreements if isinstance(d, Disagreement)]
     all_jobs = getattr(ctx, "jobs", None) or jobs(ctx.tier)
@@ -219,6 +198,20 @@ def probes(ctx):
     out.append(("C10-downconv-narrow-burst", have_b != want_b,
                 "AXIDownConverter 64->32: AW(0x100,len 1,size 2) forwarded as AW(0x%x,len %d,size %d,burst %d): %d bytes "
                 "instead of %d" % (got + (len(have_b), len(want_b)))))
+    # (3) AXIDownConverter 64 -> 32, FIXED burst with more than one beat is turned into an INCR burst
+    got = ca.impl((0x100, 1, 3, FIXED))
+    want_b = burst_bytes(0x100, 1, 3, FIXED)
+    have_b = burst_bytes(*got)
+    out.append(("C10-downconv-fixed-burst", have_b != want_b,
+                "AXIDownConverter 64->32: FIXED AW(0x100,len 1,size 3) forwarded as AW(0x%x,len %d,size %d,burst %d): "
+                "bytes 0x%x..0x%x instead of twice 0x100..0x107" % (got + (min(have_b), max(have_b)))))
+    # (4) AXIDownConverter 64 -> 32, (len+1)*ratio > 256 is truncated to the 8-bit len port
+    got = ca.impl((0x0, 128, 3, INCR))
+    want_n = (128 + 1) * 8
+    have_n = len(burst_bytes(*got))
+    out.append(("C10-downconv-len-overflow", have_n != want_n,
+                "AXIDownConverter 64->32: INCR AW(0x0,len 128,size 3) (%d bytes) forwarded as AW(0x%x,len %d,size %d,burst %d)"
+                " (%d bytes)" % ((want_n,) + got + (have_n,))))
     return out
 
 
